@@ -18,7 +18,7 @@ META = dict(
     technique='symbolic execution (sx proxies, LIA encoding) of the real request/response path over solver-enumerated event interleavings + z3 validity per path',
     bounds=dict(quick='<= 3 requests, histories of <= 5 events (<= 6 events / 2 requests when the server may also answer with a retryable read-timeout error); highest_request_id in windows [0,2],[297,301],[125,127],[32765,32767] with max_request_id = highest + 0..2 (capped at the protocol maximum), 0..2 free ids',
                 thorough='<= 3 requests, histories of <= 7 events, same windows'),
-    assumptions=['the server answers each stream at most once, with the response belonging to the request it received on that stream',
+    assumptions=['race jobs: a timer (client-side timeout, speculative execution) may fire on a thread other than the event loop\'s, so it can overlap the handling of a response - Connection.create_timer does not promise otherwise and the driver itself guards _on_timeout with the connection lock; with the bundled reactors timers run on the event-loop thread, for which these schedules are an over-approximation; two responses are never handled at the same time', 'the server answers each stream at most once, with the response belonging to the request it received on that stream',
                  'requests already in flight in the initial state never complete within the history'],
     stubs=['transport/timers/executor: harness kit', 'protocol codec: identity (request tag travels with the frame)'],
     outside=['HostConnectionPool (v1/v2 pools) — covered for accounting in C12', 'OS-thread pre-emption'],
